@@ -364,7 +364,113 @@ enum RtKind {
     Pool,
 }
 
+/// Flights with 65535 / 65536 / 65537 callers on one key (the width of a 16-bit waiter counter): the task is held at a
+/// gate until every caller has registered (counted at the hook point behind `get_future`), then released; one task
+/// must have run and every caller must get its value.
+fn run_big(args: &Args, rep: &mut Report) {
+    const P: &str = "C20";
+    let registered = Arc::new(AtomicU64::new(0));
+    {
+        let r = registered.clone();
+        utils::verif::set_point_callback(Some(Arc::new(move |name: &'static str| {
+            if name == "sf.after_get_future" {
+                r.fetch_add(1, Ordering::SeqCst);
+            }
+        })));
+    }
+    let sizes: Vec<usize> = if args.has("all-sizes") { vec![65535, 65536, 65537, 131072] } else { vec![65536, 65537] };
+    for (ri, workers) in [0usize, 4].into_iter().enumerate() {
+        let rt = if workers == 0 {
+            tokio::runtime::Builder::new_current_thread().enable_all().build().unwrap()
+        } else {
+            tokio::runtime::Builder::new_multi_thread().worker_threads(workers).enable_all().build().unwrap()
+        };
+        for &n in &sizes {
+            registered.store(0, Ordering::SeqCst);
+            let g: Arc<Group<u64, SfErr>> = Arc::new(Group::new());
+            let execs = Arc::new(AtomicU64::new(0));
+            let done = Arc::new(AtomicU64::new(0));
+            let wrong = Arc::new(AtomicU64::new(0));
+            let (gate_tx, gate_rx) = tokio::sync::watch::channel(false);
+            let reg = registered.clone();
+            let (execs2, done2, wrong2) = (execs.clone(), done.clone(), wrong.clone());
+            let verdict: Result<(u64, u64, u64), String> = rt.block_on(async move {
+                for _ in 0..n {
+                    let (g, execs, done, wrong) = (g.clone(), execs2.clone(), done2.clone(), wrong2.clone());
+                    let mut rx = gate_rx.clone();
+                    tokio::spawn(async move {
+                        let fut = async move {
+                            execs.fetch_add(1, Ordering::SeqCst);
+                            while !*rx.borrow() {
+                                if rx.changed().await.is_err() {
+                                    break;
+                                }
+                            }
+                            Ok::<u64, SfErr>(7)
+                        };
+                        let (r, _) = g.work("big", fut).await;
+                        if !matches!(r, Ok(7)) {
+                            wrong.fetch_add(1, Ordering::SeqCst);
+                        }
+                        done.fetch_add(1, Ordering::SeqCst);
+                    });
+                }
+                // all callers registered?
+                let t0 = Instant::now();
+                while (reg.load(Ordering::SeqCst) as usize) < n {
+                    if t0.elapsed() > Duration::from_secs(120) {
+                        return Err(format!("only {} of {n} callers registered within 120 s", reg.load(Ordering::SeqCst)));
+                    }
+                    tokio::time::sleep(Duration::from_millis(5)).await;
+                }
+                let _ = gate_tx.send(true);
+                // bounded progress: the logical condition (task finished, callers still pending) must persist over many
+                // scheduler rounds and several seconds before it counts
+                let t1 = Instant::now();
+                let mut rounds = 0u64;
+                loop {
+                    let d = done2.load(Ordering::SeqCst);
+                    if d as usize == n {
+                        break;
+                    }
+                    rounds += 1;
+                    if rounds >= 40 && t1.elapsed() > Duration::from_secs(20) {
+                        break;
+                    }
+                    tokio::time::sleep(Duration::from_millis(100)).await;
+                }
+                Ok((done2.load(Ordering::SeqCst), execs2.load(Ordering::SeqCst), wrong2.load(Ordering::SeqCst)))
+            });
+            let mut w = witness_base(args, "sflight", ri as u64);
+            w["mode"] = json!("one flight with many callers");
+            w["callers"] = json!(n);
+            w["runtime_workers"] = json!(workers);
+            match verdict {
+                Err(e) => rep.inconclusive(P, &e),
+                Ok((d, ex, wr)) => {
+                    if (d as usize) < n {
+                        rep.violation(P, "sf-lost-waiter-big-flight", &format!("{} of {n} callers of one flight never got an answer although the task finished (20 s, 40+ scheduler rounds)", n - d as usize), w.clone());
+                    } else if ex != 1 {
+                        rep.violation(P, "sf-task-ran-more-than-once", &format!("{ex} task executions for one flight of {n} callers"), w.clone());
+                    } else if wr != 0 {
+                        rep.violation(P, "sf-wrong-value", &format!("{wr} of {n} callers got something else than the task's value"), w.clone());
+                    } else {
+                        rep.count(P, "big_flights_all_callers_answered", 1);
+                    }
+                    rep.case(P, Some(format!("big|n{n}|w{workers}")));
+                },
+            }
+        }
+        rt.shutdown_timeout(Duration::from_secs(5));
+    }
+    utils::verif::set_point_callback(None);
+}
+
 pub fn run(args: &Args, rep: &mut Report) {
+    if args.has("big-flight") {
+        run_big(args, rep);
+        return;
+    }
     // runtimes are reused across histories (a fresh Group per history)
     let rts: Vec<(String, RtKind, Option<tokio::runtime::Runtime>, Option<Arc<xet_threadpool::ThreadPool>>)> = vec![
         ("current".into(), RtKind::Current, Some(tokio::runtime::Builder::new_current_thread().enable_all().build().unwrap()), None),
